@@ -231,6 +231,17 @@ def run(ctx):
     shared_table_aliasing(
         ctx, ('callbacks',), 'a callback stored for one namespace / client '
         'is completed by an acknowledgement bearing the same id on another')
+    ctx.rule('C06.R8', 'who may touch the callbacks table', floor=8)
+    from .common import table_owners
+    table_owners(ctx, 'callbacks', ('BaseManager',),
+                 ('__init__', '_generate_ack_id', 'trigger_callback',
+                  'basic_disconnect'), 'C06.R8',
+                 'an entry is created with its id, taken out by the one '
+                 'acknowledgement that bears the id, and dropped with the '
+                 'client; a second reader can hand the same callback out '
+                 'under another id (invoked twice), a second writer can '
+                 'drop it while its acknowledgement is in flight (never '
+                 'invoked)')
     ctx.rule('C06.R3', 'one fresh id per recipient, sent to that '
              'recipient\'s transport', floor=6)
     for fam in SA:
